@@ -135,7 +135,7 @@ func childMain() {
 		select {} // the parent kills us
 	}
 	// graceful: stop when idle
-	deadline := time.Now().Add(60 * time.Second)
+	deadline := time.Now().Add(20 * time.Second)
 	for time.Now().Before(deadline) {
 		l.xmu.Lock()
 		x := l.lastX
@@ -145,13 +145,20 @@ func childMain() {
 		}
 		time.Sleep(2 * time.Millisecond)
 	}
+	l.xmu.Lock()
+	caughtUp := total == 0 || l.lastX >= int64(total-1)
+	l.xmu.Unlock()
 	cancel()
 	select {
 	case <-done:
 	case <-time.After(10 * time.Second):
 	}
 	l.Close()
-	l.say("G\n")
+	if caughtUp {
+		l.say("G\n")
+	} else {
+		l.say("STUCK\n")
+	}
 }
 
 // ---- parent ----------------------------------------------------------------------------------
@@ -165,6 +172,9 @@ type Round struct {
 
 type Case struct {
 	Rounds []Round `json:"rounds"`
+	// EmptyOffsetFile: the very first start was killed between creating the consumer's offset
+	// file and sizing it (the file exists with length 0 when round 0 starts).
+	EmptyOffsetFile bool `json:"empty_offset_file,omitempty"`
 }
 
 type failure struct {
@@ -254,6 +264,9 @@ func run(c Case) (f *failure, nontrivial bool) {
 	dir := filepath.Join(root, "data")
 	os.MkdirAll(dir, 0755)
 	events := filepath.Join(root, "events")
+	if c.EmptyOffsetFile {
+		os.WriteFile(filepath.Join(dir, "publish_distributor.state"), nil, 0650)
+	}
 	total := 0
 	handed := map[int64]bool{}
 	prevLastX := int64(-1) // last offset known to have been completely handed in an earlier incarnation
@@ -434,6 +447,7 @@ func TestRandom(t *testing.T) {
 			}
 			c.Rounds = append(c.Rounds, r)
 		}
+		c.EmptyOffsetFile = rapid.IntRange(0, 7).Draw(t, "emptyOffsetFile") == 0
 		check(t, c)
 	})
 }
